@@ -27,6 +27,8 @@ def main(tier, seed):
     progs = scenarios.fiber_scenarios(rng, 1500 if tier == "quick" else 25000, nfib=3)
     profcheck.run_scenarios(rep, "fibers", progs, bins, PROP)
     profcheck.run_scenarios(rep, "switchcontexts", scenarios.fiber_switch_context_scenarios(), bins, PROP)
+    # lifetimes: fibers that returned / were abandoned / resumed / failed, run from the script, a fiber or a nested fiber, kept or dropped
+    profcheck.run_scenarios(rep, "fiberlifetimes", scenarios.fiber_lifetime_scenarios(), bins, PROP)
     # fibers whose code lives in another module than their caller's: after every switch each side is back in its own module
     profcheck.run_scenarios(rep, "crossmodule", [p for p in scenarios.cross_module_scenarios() if "fiber" in p[0]], bins, PROP)
     # every operation on a fiber / on the Fiber class with every kind and number of arguments (Natives.tla): the outcome, and that a
